@@ -6,6 +6,7 @@ import RxModel.Driver.SuiteFinalize
 import RxModel.Driver.SuiteFlatten
 import RxModel.Driver.SuiteConvert
 import RxModel.Driver.SuiteShare
+import RxModel.Driver.SuiteMulti
 /-
   rxdriver: reads the suite file on stdin, runs the model, prints one line per
   external event — the lines the harness prints for the real code.
@@ -62,6 +63,7 @@ def runCase (c : Case) : List String :=
   | "flatten" => runFlatten c.id c.flavor c.field c.events
   | "convert" => Conv.runConvertCase c.id c.field c.events
   | "share" => ShareS.runShareCase c.id c.field c.events
+  | "multi" => MultiS.runMultiCase c.id ((c.field "pipe").headD (.atom "")) c.events
   | s => [s!"{c.id}.0 UNKNOWN-SUITE {s}"]
 
 partial def loop (h : IO.FS.Stream) (out : IO.FS.Stream) (cur : Case) : IO Unit := do
